@@ -20,9 +20,7 @@ import (
 	"strings"
 	"testing"
 
-	"github.com/dominant-strategies/go-quai/common"
 	"github.com/dominant-strategies/go-quai/core/types"
-	"github.com/dominant-strategies/go-quai/core/vm"
 	"github.com/dominant-strategies/go-quai/params"
 	"pgregory.net/rapid"
 
@@ -324,124 +322,15 @@ func TestC20O_OriginDebit(t *testing.T) {
 
 // ---- structured frames -------------------------------------------------------------------------
 
-// c20oBody writes 1-3 steps of a frame body into a: a fundable CONVERT of a run-time fraction of
-// the executing account's balance, a nested frame (CALL / DELEGATECALL / CALLCODE / STATICCALL
-// into the next contract of the chain, or a CREATE whose init code is again such a body), or a
-// storage write; then ends the frame successfully or with one of the failure kinds. Every nested
-// result is ignored by the caller (POP), so failures are swallowed.
-func c20oBody(rt *rapid.T, a *evmgen.Asm, level, maxLevel int, failPct int, kinds *[]string, tag string) {
-	u := evmgen.U()
-	n := rapid.IntRange(1, 3).Draw(rt, tag+"steps")
-	for i := 0; i < n; i++ {
-		lbl := fmt.Sprintf("%s.%d", tag, i)
-		choice := rapid.IntRange(0, 9).Draw(rt, lbl+"kind")
-		switch {
-		case choice < 4:
-			k := uint64(rapid.IntRange(2, 9).Draw(rt, lbl+"k"))
-			lim := []uint64{params.TxGas, params.TxGas, 100000, params.TxGas - 1}[rapid.IntRange(0, 3).Draw(rt, lbl+"lim")]
-			dest := u.InZoneQi[rapid.IntRange(0, len(u.InZoneQi)-1).Draw(rt, lbl+"dest")]
-			*kinds = append(*kinds, fmt.Sprintf("L%d:CONVERT", level))
-			a.Push(lim).Push(k).Op(vm.ADDRESS, vm.BALANCE, vm.DIV).PushAddr(dest).Push(0).Op(vm.CONVERT, vm.POP)
-		case choice < 8 && level < maxLevel:
-			ops := []vm.OpCode{vm.CALL, vm.DELEGATECALL, vm.CALLCODE, vm.STATICCALL, vm.CREATE, vm.DELEGATECALL, vm.CALL}
-			op := ops[rapid.IntRange(0, len(ops)-1).Draw(rt, lbl+"op")]
-			*kinds = append(*kinds, fmt.Sprintf("L%d:%s", level, op))
-			if op == vm.CREATE {
-				init := evmgen.NewAsm()
-				c20oBody(rt, init, level+1, maxLevel, failPct, kinds, lbl+"i")
-				code := init.Assemble().Code
-				a.DataToMem(a.Data(code, "init"), 0)
-				// CREATE(value = balance/3, offset 0, size)
-				a.Push(uint64(len(code))).Push(0).Push(3).Op(vm.ADDRESS, vm.BALANCE, vm.DIV, vm.CREATE, vm.POP)
-				continue
-			}
-			a.Push(0).Push(0).Push(0).Push(0)
-			if op == vm.CALL || op == vm.CALLCODE {
-				if rapid.Bool().Draw(rt, lbl+"val") {
-					a.Push(4).Op(vm.ADDRESS, vm.BALANCE, vm.DIV) // fund the callee
-				} else {
-					a.Push(0)
-				}
-			}
-			a.PushAddr(u.Contracts[level+1])
-			if rapid.IntRange(0, 4).Draw(rt, lbl+"gas") == 0 {
-				a.Push(uint64(rapid.SampledFrom([]int{0, 2300, 30000, 60000}).Draw(rt, lbl+"gasv")))
-			} else {
-				a.Op(vm.GAS)
-			}
-			a.Op(op, vm.POP)
-		default:
-			*kinds = append(*kinds, fmt.Sprintf("L%d:SSTORE", level))
-			a.Push(uint64(rapid.IntRange(1, 9).Draw(rt, lbl+"sv"))).Push(uint64(rapid.IntRange(0, 3).Draw(rt, lbl+"sk"))).Op(vm.SSTORE)
-		}
-	}
-	if rapid.IntRange(0, 99).Draw(rt, tag+"fail") < failPct {
-		switch rapid.IntRange(0, 4).Draw(rt, tag+"failkind") {
-		case 0, 1:
-			*kinds = append(*kinds, fmt.Sprintf("L%d:end=REVERT", level))
-			a.Push(0).Push(0).Op(vm.REVERT)
-		case 2:
-			*kinds = append(*kinds, fmt.Sprintf("L%d:end=INVALID", level))
-			a.Op(vm.OpCode(0xfe))
-		case 3:
-			*kinds = append(*kinds, fmt.Sprintf("L%d:end=UNDERFLOW", level))
-			a.Op(vm.POP, vm.POP, vm.POP, vm.POP, vm.POP, vm.POP, vm.POP, vm.POP)
-		default:
-			*kinds = append(*kinds, fmt.Sprintf("L%d:end=OOG", level))
-			a.Push(1 << 30).Op(vm.MLOAD)
-		}
-		return
-	}
-	*kinds = append(*kinds, fmt.Sprintf("L%d:end=STOP", level))
-	a.Op(vm.STOP)
-}
-
-// TestC20O_Frames: a chain of contracts 0 -> 1 -> 2 -> 3, each running a generated body; the
-// transaction calls contract 0. Compared with the grammar-driven test this one is dense in the
-// situation the ledger identity is about: a conversion emitted inside a nested frame of some kind
-// that is rolled back (or not) while the transaction as a whole succeeds.
+// TestC20O_Frames: a chain of contracts 0 -> 1 -> 2 -> 3 (evmgen.GenFrames), each running a
+// generated body of run-time-funded CONVERTs, storage writes and nested CALL / DELEGATECALL /
+// CALLCODE / STATICCALL / CREATE / CREATE2 frames whose result is ignored; the transaction calls
+// contract 0. Compared with the grammar-driven test this one is dense in the situation the ledger
+// identity is about: a conversion emitted inside a nested frame of some kind that is rolled back
+// (or not) while the transaction as a whole succeeds.
 func TestC20O_Frames(t *testing.T) {
-	u := evmgen.U()
 	rapid.Check(t, func(rt *rapid.T) {
-		ptn := evmgen.Regimes[rapid.IntRange(0, len(evmgen.Regimes)-1).Draw(rt, "regime")]
-		if rapid.IntRange(0, 3).Draw(rt, "open") > 0 {
-			var ok []uint64
-			for _, r := range evmgen.Regimes {
-				if evmgen.ConversionOpen(r) {
-					ok = append(ok, r)
-				}
-			}
-			ptn = ok[rapid.IntRange(0, len(ok)-1).Draw(rt, "regime2")]
-		}
-		price := []*big.Int{big.NewInt(1), big.NewInt(7), big.NewInt(1_000_000_000)}[rapid.IntRange(0, 2).Draw(rt, "price")]
-		env := &evmgen.Env{BlockNumber: []uint64{120000, params.MaxCodeSizeForkHeight + 10, 4000000}[rapid.IntRange(0, 2).Draw(rt, "bn")], PrimeTerminusNumber: ptn, BaseFee: new(big.Int).Set(price),
-			GasLimit: 12_000_000, Time: 1_700_000_000, QuaiStateSize: big.NewInt(1_000_000), Eligible: evmgen.EligibleMask(common.Location{0, 1}), Coinbase: u.EOAs[0].Addr}
-		maxLevel := rapid.IntRange(1, 3).Draw(rt, "depth")
-		var kinds []string
-		pre := &evmgen.PreState{}
-		e21 := new(big.Int).Exp(big.NewInt(10), big.NewInt(21), nil)
-		for lvl := 0; lvl <= maxLevel; lvl++ {
-			a := evmgen.NewAsm()
-			fail := 45
-			if lvl == 0 {
-				fail = 8
-			}
-			c20oBody(rt, a, lvl, maxLevel, fail, &kinds, fmt.Sprintf("c%d", lvl))
-			p := a.Assemble()
-			bal := []*big.Int{e21, e21, new(big.Int).Mul(e21, big.NewInt(1000)), big.NewInt(0), new(big.Int).Lsh(big.NewInt(1), 64)}[rapid.IntRange(0, 4).Draw(rt, fmt.Sprintf("bal%d", lvl))]
-			pre.Accounts = append(pre.Accounts, evmgen.AccountSpec{Addr: u.Contracts[lvl], Balance: bal, Nonce: 1, Code: &p})
-		}
-		pre.Accounts = append(pre.Accounts, evmgen.AccountSpec{Addr: u.EOAs[4].Addr, Balance: new(big.Int).Exp(big.NewInt(10), big.NewInt(26), nil)})
-		to := u.Contracts[0]
-		mode := []string{evmgen.ModeTracedEnforced, evmgen.ModeUntraced, evmgen.ModeTracedBypass}[rapid.IntRange(0, 2).Draw(rt, "mode")]
-		c := &evmgen.Case{Env: env, Pre: pre, Mode: mode, CleanFrom: true, Kinds: kinds,
-			Tx: evmgen.TxSpec{Kind: "quai", From: 4, To: &to, ToClass: "contract", Gas: uint64(rapid.SampledFrom([]int{300000, 2000000, 4900000}).Draw(rt, "gas")), GasClass: "frames", Price: price, PriceClass: "basefee",
-				Value: new(big.Int), ALClass: "complete"}}
-		// access lists are enforced in block processing: name every contract of the chain with its slots
-		keys := []common.Hash{common.BigToHash(big.NewInt(0)), common.BigToHash(big.NewInt(1)), common.BigToHash(big.NewInt(2)), common.BigToHash(big.NewInt(3))}
-		for lvl := 0; lvl <= maxLevel; lvl++ {
-			c.Tx.AccessList = append(c.Tx.AccessList, types.AccessTuple{Address: u.Contracts[lvl], StorageKeys: keys})
-		}
+		c := evmgen.GenFrames(rt, evmgen.FramesOpts{Effects: []string{"convert", "sstore"}, PreferRegime: evmgen.ConversionOpen})
 		o, err := c.Run()
 		if err != nil {
 			rt.Fatalf("HARNESS: %v", err)
@@ -450,9 +339,9 @@ func TestC20O_Frames(t *testing.T) {
 			rt.Fatalf("HARNESS: structured transaction rejected: %v", o.Res.Err)
 		}
 		rp := c20oCheck(rt, "origin-frames", c, o, false)
-		stats.Case("origin-frames", rp.sig+"|"+strings.Join(kinds, ","), rp.nontrivial, rp.labels...)
+		stats.Case("origin-frames", rp.sig+"|"+strings.Join(c.Kinds, ","), rp.nontrivial, rp.labels...)
 		if rp.nontrivial && stats.WantSample("origin-frames") {
-			stats.Sample("origin-frames", map[string]any{"regime": evmgen.RegimeName(ptn), "mode": mode, "program": strings.Join(kinds, " "), "signature": rp.sig})
+			stats.Sample("origin-frames", map[string]any{"regime": evmgen.RegimeName(c.Env.PrimeTerminusNumber), "mode": c.Mode, "program": strings.Join(c.Kinds, " "), "signature": rp.sig})
 		}
 	})
 }
